@@ -74,7 +74,7 @@ def run(tier):
         dict(function='compute_line_column', contract='requires the line table of compute_line_starts (proved in the C20 unit: starts at 0, strictly increasing); ensures (1-based line of the last line start <= offset, 1-based byte column offset - start + 1); no index/overflow panic for offset < u32::MAX'),
         dict(function='Parser::parse_file', contract='ensures adv(events) == |tokens| - 1 && leading == 0: every lexed token, trivia included, is advanced exactly once'),
     ]
-    not_decided = ['which TokenKind the lexer assigns to a piece of text', 'build_tree replays the events into the green tree (Arc/SmolStr/into_iter().rev())',
+    not_decided = ['which TokenKind the lexer assigns to a piece of text', 'build_tree replays the events into the green tree, and the red tree (ast.rs) derives offsets from green lengths: neither is under contract; both are EXECUTED by the replay runner on generated texts (tree text == source, lengths add up, node/token spans tile the file, every token text is the source slice at its span)',
                    'error spans inside the text', 're-parse equality', 'termination of parse_file (progress of parse_element is assumed)']
     return vprop.run_verus_property(PROP, tier, units, runner=_runner_spec(), assumptions=assumptions, samples=samples,
                                     not_decided=not_decided, pre_undecided=pre_und,
